@@ -116,11 +116,26 @@ func init() {
 		"(*sync.RWMutex).Unlock":  icLock(false, false),
 		"(*sync.RWMutex).RLock":   icLock(true, true),
 		"(*sync.RWMutex).RUnlock": icLock(true, false),
+		"(*sync.WaitGroup).Add": func(fr *frame, args []value) value {
+			fr.m.sched.wgAdd(fr.g, args[0].(*value), int(fr.m.asInt(args[1], "WaitGroup delta")))
+			return nil
+		},
+		"(*sync.WaitGroup).Done": func(fr *frame, args []value) value {
+			fr.m.sched.wgAdd(fr.g, args[0].(*value), -1)
+			return nil
+		},
+		"(*sync.WaitGroup).Wait": func(fr *frame, args []value) value {
+			fr.m.sched.wgWait(fr.g, args[0].(*value))
+			return nil
+		},
 
 		"(*os.File).Read":      icFileRead,
 		"(*os.File).Write":     icFileWrite,
 		"(*os.File).Close":     noopNilErr,
 		"os.Exit":              icOsExit,
+
+		"github.com/goblimey/go-tools/dailylogger.New":             icDailyLoggerNew,
+		"(*github.com/goblimey/go-tools/dailylogger.Writer).Write": icDailyLoggerWrite,
 	}
 }
 
